@@ -214,6 +214,12 @@ def plan(tier, seed):
         subs += [tuple(c) for c in itertools.combinations(range(KL), 2)]
     for i in range(0, len(subs), 3):
         P.append({'kind': 'e3', 'base': 'hip', 'variant': 'plain', 'K': KL, 'subsets': subs[i:i + 3], 'assignments': assigns, 'cpu_count': 1})
+    # runs long enough for an iteration-count-dependent batching of the work (K // 16 >= 2): every position of a single failing iteration
+    for KB in ((33,) if tier == 'quick' else (33, 64)):
+        alt = {str(n): [i % 2 for i in range(n)] for n in range(1, KB + 1)}
+        subs = [()] + [(i,) for i in range(KB)]
+        for i in range(0, len(subs), 6):
+            P.append({'kind': 'e3', 'base': 'hip', 'variant': 'plain', 'K': KB, 'subsets': subs[i:i + 6], 'assignments': [{}, alt], 'cpu_count': 4})
     ilv_specs = [({'K': 2, 'n_outputs': 3, 'value_width': {'1': 40}}, 3)] if tier == 'quick' else \
         [({'K': 2, 'n_outputs': 3, 'value_width': {'1': 40}}, 4), ({'K': 2, 'n_outputs': 400, 'value_width': {'0': 30}}, 3),
          ({'K': 3, 'n_outputs': 3, 'value_width': {'2': 40}}, 2)]
@@ -235,7 +241,7 @@ def run(tier, seed, budget=None):
               '<=W workers (quick 2, thorough 3); every surviving row re-simulated through the real client and compared token by token in header '
               'order; statistics recomputed from the rows; E4: all interleavings of two (thorough: three) concurrent appends with rows of '
               'different lengths (thorough: one > 8 KiB) up to 3 (4) preemptions; long runs: K=8 (12) iterations with the pool seeing 1 CPU (environment answer), '
-              'at most 1 (2) failing iterations, assignments of whatever work items the driver hands to map(). Non-trivial = at least one failing iteration and more than '
+              'at most 1 (2) failing iterations, assignments of whatever work items the driver hands to map(); K=33 (thorough also 64) with every position of one failing iteration. Non-trivial = at least one failing iteration and more than '
               'one worker; distinct by (base, outputs, K, failing subset, assignment)'),
         assumptions=['samples are scripted environment answers (distinct in-range value per iteration ordinal; one out-of-range value for failing iterations)',
                      'a single write(2) of one row (< 8 KiB) to an O_APPEND regular file is atomic',
